@@ -9,12 +9,13 @@ from collections import Counter
 
 import chy
 import vlib
+from checks.c01 import full_projection
 
 OPS = ['canonicalize', 'standardize', 'fix_resonance', 'standardize_charges', 'neutralize', 'explicify', 'implicify', 'kekule', 'thiele', 'tautomers']
 
 
 def state(m, light=False):
-    heavy = Counter((a.atomic_number, a._isotope or 0) for a in m._atoms.values() if a.atomic_number != 1)
+    heavy = Counter((a.atomic_number, a._isotope or 0) for a in m._atoms.values() if a.atomic_number != 1 or a._isotope not in (None, 1))  # D and T are kept
     ih = [a._implicit_hydrogens for a in m._atoms.values()]
     bad = sum(1 for x in ih if x is None)
     hat = sum(1 for a in m._atoms.values() if a.atomic_number == 1)
@@ -120,7 +121,11 @@ def observe(case):
         return {'skip': type(e).__name__}
     s0 = state(m)
     s0['doc'] = 1 if case['kind'] == 'doc' else 0
-    rec = {'kind': case['kind'], 'key': case['key'], 'eqv': case.get('eqv', 0), 's0': s0, 'steps': [], 'f': [], 't0': {}, 'tsteps': [], 'same': 1}
+    try:
+        dom = full_projection(m, rings=True)[0]
+    except Exception:
+        dom = None
+    rec = {'kind': case['kind'], 'key': case['key'], 'eqv': case.get('eqv', 0) if dom is not None else 0, 'dom': dom or {}, 's0': s0, 'steps': [], 'f': [], 't0': {}, 'tsteps': [], 'same': 1}
     twin = None
     if rec['eqv']:
         nums = list(m._atoms)
@@ -154,6 +159,7 @@ def doc_pairs():
 
 NEUTRAL = ['CC(=O)[O-].[Na+]', 'C[NH3+].[Cl-]', '[O-]c1ccccc1', '[NH3+]CC([O-])=O', 'C[N+](C)(C)C.[OH-]', 'CC(=O)[O-]', 'C[NH3+]', 'CS(=O)(=O)[O-].[K+]', 'c1cc[nH+]cc1',
            '[O-]C(=O)CC[NH3+]', 'OP(=O)([O-])[O-].[Na+].[Na+]', 'C[S-]', 'CC#[C-].[Li+]', 'C[O-].[Na+]', '[NH4+].[Cl-]', 'Nc1cc[nH+]cc1', 'OC(=O)CC(=O)[O-]']
+HYDRO = ['[2H]C([2H])O', '[2H]O[2H]', '[3H]c1ccccc1', 'C[2H]', '[H]C([H])([H])O', '[H]c1ccccc1', '[H][H]', '[2H][H]', '[H]N([H])C(C)=O', '[H]OC(=O)C[N+]([H])([H])[H]', 'C[C@]([H])(N)O', '[H][C@]1(C)CCCO1', '[H][C@@]12CCCC[C@]1([H])CCCC2', 'F/C=C/[H]', '[H]/C(F)=C(/[H])Cl', 'N[C@@H]1CC[C@H](O)CC1', '[H]/C(C)=C(/[H])C', 'C[C@H]1CCCO1']
 RESON = ['C[N+](=O)[O-]', 'CN(=O)=O', 'C[N+](C)=CC=C[CH-]C', 'C=[N+]=[N-]', '[CH2-]C=[N+](C)C', 'C[S+]([O-])C', 'O=C1C=CC(=O)C=C1', 'CC(=O)C', 'OC=CC', 'Oc1ncccc1', 'O=c1cccc[nH]1',
          'Oc1nc(O)ccn1', 'CC(O)=CC(C)=O', 'N=C(N)N', 'NC(N)=[NH2+]', 'C[n+]1ccccc1[O-]', 'Cc1[nH]cnc1', 'c1cnc[nH]1', 'OC1=CC=CC=C1', 'CC(=N)O', 'CN=C(C)O', 'C1=CC=CC=C1',
          '[Fe+2].c1cc[cH-]c1.c1cc[cH-]c1', 'C[N+]1=CN(C)C=C1', 'Cn1cc[n+](C)c1', '[O-][n+]1ccccc1', 'C[P+](C)(C)[CH2-]', 'CS(C)(=O)=O', 'OS(=O)O', 'O=[N+]([O-])c1ccccc1']
@@ -170,19 +176,19 @@ def run(ck):
         cases.append(dict(kind=kind, smi=smi, ops=ops, eqv=eqv, key=key, rs=rnd.randrange(1 << 30), **kw))
 
     n = 50 if ck.quick else 900
-    sel = chy.pick(corp, n, ck.seed) + NEUTRAL + RESON
+    sel = chy.pick(corp, n, ck.seed) + NEUTRAL + RESON + HYDRO
     for k, s in enumerate(sel):
         fixed = k < n  # the fixed corpus: numbering independence is claimed with tautomer fixing too
         ft = k % 2
         add('hist', s, [('canonicalize', ft), ('canonicalize', ft)], 1 if (not ft or fixed) else 0)
         add('hist', s, [('standardize', ft), ('standardize', ft), ('standardize_charges', 0), ('standardize_charges', 0)], 1 if (not ft or fixed) else 0)
-        if k % 3 == 0:
-            add('hist', s, [('explicify', 0), ('implicify', 0), ('implicify', 0), ('explicify', 0), ('explicify', 0)], 1, prep=('kekule',))
+        if k % 3 == 0 or s in HYDRO:
+            add('hist', s, [('explicify', 0), ('implicify', 0), ('explicify', 0), ('implicify', 0), ('implicify', 0), ('explicify', 0), ('explicify', 0)], 1, prep=('kekule',))
             add('hist', s, [('neutralize', 0), ('neutralize', 0), ('fix_resonance', 0), ('fix_resonance', 0)], 1)
         if k % 3 == 1:
             ops = [(rnd.choice(OPS[:9]), 0) for _ in range(rnd.randint(3, 5))]
             add('hist', s, ops, 1)
-        if k % 6 == 2 and len(s) < 45:
+        if (k % 6 == 2 or k >= n) and len(s) < 45:
             add('hist', s, [('tautomers', 0)], 1 if fixed else 0, limit=30)
     # documented spellings, alone and grafted on corpus molecules
     for raw, want in docs:
